@@ -2,6 +2,7 @@ package parser
 
 import (
 	"encoding/json"
+	"errors"
 	"fmt"
 	"io"
 	"strconv"
@@ -117,6 +118,13 @@ func (j *jsonParser) Pull() (node.Node, bool, error) {
 	tok, err := j.jsonReader.Token()
 
 	if err != nil {
+		// The token reader reports a plain io.EOF wherever the input stops; if
+		// an object or array is still open the document is truncated, which
+		// must not be mistaken for its regular end.
+		if errors.Is(err, io.EOF) && len(j.stateStack) > 0 {
+			return nil, false, io.ErrUnexpectedEOF
+		}
+
 		return nil, false, err
 	}
 
